@@ -15,13 +15,54 @@ INVARIANT ScenarioConforms
 """
 
 
+CFG_ALG = """SPECIFICATION TSpec
+CONSTANTS
+  Fin <- MCFin
+  Sent = {1000000, 1000001}
+  Ops = {}
+  Kinds = {}
+INVARIANT WeightsKept
+INVARIANT Covered
+"""
+
+
+def algebra(ctx, tmp):
+    """WTAlgebra.tla: every operator x operand kind x masking on real WeightedTensor objects.  Verdict: maskings are carried by
+    every operation (weights kept, two different maskings refused, aggregates of the result see observed entries only, operands
+    untouched).  The values at observed entries (plain arithmetic, not a missing-data matter) are a conformance note."""
+    res, cs = cases.enumerate_cases("MC_WTAlgebra", "MC_WTAlgebra.cfg", tmp, "alg")
+    ctx.add_tlc("WTAlgebra: 17 operators x 5 operand kinds x maskings (design)", res)
+    if res.violated:
+        ctx.violation({"check": "design", "invariant": res.violated[0]}, f"WTAlgebra.tla violates {res.violated}", replay=res.trace_text[:3000])
+    recs = [mk.run_algebra_case(c) for c in cs]
+    ok, idx, r2 = cases.validate_records("WTAlgebraTrace", CFG_ALG, recs, tmp, "alg_conf", env={"EXPECT_COUNT": str(len(cs))})
+    ctx.traces += len(recs)
+    ctx.states += r2.distinct
+    ctx.transitions += r2.generated
+    for r in recs:
+        ctx.case(key=("alg", r["key"]))
+    ctx.log(f"WTAlgebra: {len(recs)} operator cases on real WeightedTensor objects -> {'maskings carried everywhere' if ok else 'MISMATCH'} ({r2.wall:.1f}s)")
+    if not ok:
+        bad = recs[idx] if idx is not None else None
+        ctx.violation({"check": "algebra", "op": bad and bad["op"], "kind": bad and bad["kind"]},
+                      f"WeightedTensor operator does not carry the masking as WTAlgebra.tla requires on {bad}", replay=bad)
+    okv, idxv, _ = cases.validate_records("WTAlgebraTrace", CFG_ALG.replace("INVARIANT WeightsKept", "INVARIANT ValuesRight").replace("INVARIANT Covered\n", ""),
+                                          recs, tmp, "alg_values", env={"EXPECT_COUNT": "0"})
+    note = None if okv else f"values at observed entries differ from WTAlgebra.tla on {recs[idxv] if idxv is not None else '?'}"
+    ctx.extra["algebra_value_notes"] = {"cases": len(recs), "conform": bool(okv), "example": note}
+    ctx.log(f"notes (not part of the verdict): operator values at observed entries -> {'all conform' if okv else note[:300]}")
+
+
 def run(ctx):
     q = ctx.quick
     ctx.rule = ("TLC checks NonInterference, CountsObserved and NeverNonFinite of the extended-real algebra of masked tensors "
                 "(Masking.tla: filled / weighted_value / wsum / weighted products / Gaussian attachment pipeline) for every mask, "
                 "every pair of twins agreeing on the observed entries and every sentinel (NaN, inf, huge) at masked entries; every "
                 "vector (3 entries, all masks, sentinels at masked entries, bool / int / float weights) is run through the real "
-                "WeightedTensor operations and compared by TLC with the algebra (MaskingTrace.tla); twin-dataset scenarios on real "
+                "WeightedTensor operations and compared by TLC with the algebra (MaskingTrace.tla); WTAlgebra.tla: 17 operators (reflected "
+                "ones, comparisons, negation, absolute value, square) x 5 operand kinds x every masking on real WeightedTensor objects - the "
+                "masking is carried by every operation, two different maskings are refused, aggregates of the result see observed entries "
+                "only (WTAlgebraTrace.tla); twin-dataset scenarios on real "
                 "models (masked values and padded times overwritten by 7.5 / 1e30 / NaN / inf, 0-2 extra padded visits, 25 % missing "
                 "entries incl. partially observed visits) must give equal attachment terms, sufficient statistics, counts, "
                 "initial and fitted parameters (memory phase included), trajectories at real visits, personalizations, and a "
@@ -51,6 +92,7 @@ def run(ctx):
     if not ok:
         bad = recs[idx] if idx is not None else None
         ctx.violation({"check": "vector", "weight_dtype": bad and bad["weight_dtype"]}, f"WeightedTensor operation differs from Masking.tla on {bad}", replay=bad)
+    algebra(ctx, tmp)
     # twin scenarios
     rnd = random.Random(ctx.seed)
     kinds = ["logistic_diag_src1", "logistic_scalar_src1", "joint_src1", "logistic_binary"] if q else \
